@@ -718,14 +718,18 @@ fn fixture_cases(tier: Tier) -> Vec<Case> {
     let root = fixtures_root();
     let mut stats = Stats::default();
     // (path, bytes, patch lines): every fixture as it is; thin Mach-O files that have both LC_FUNCTION_STARTS and
-    // `__unwind_info` once more with the function-starts data emptied (`datasize` = 0), so that the compact-unwind
+    // `__unwind_info` once more with the function-starts data emptied (`datasize` = 0) and the symbol table emptied, so that the compact-unwind
     // pages are the only source of function starts (on the files as they are, every unwind-info start is also a
     // function start and the second source is unobservable)
     let mut variants: Vec<(String, Arc<[u8]>, Vec<String>)> = Vec::new();
     for path in fixture_files() {
         let Ok(bytes) = std::fs::read(root.join(&path)) else { continue };
         if let Some(pos) = objpres::macho_function_starts_cmd(&bytes) {
-            let patch = vec![format!("fpatch {} 00000000", pos + 12)];
+            let mut patch = vec![format!("fpatch {} 00000000", pos + 12)];
+            // … and with an empty symbol table (`nsyms` = 0): the placeholders are then not shadowed by symbols
+            if let Some(symtab) = objpres::macho_load_cmd(&bytes, 2) {
+                patch.push(format!("fpatch {} 00000000", symtab + 12));
+            }
             let patched = objpres::apply_patches(&bytes, &patch);
             let has_unwind = objpres::presentation(&patched, "macho").map(|p| p.iter().any(|l| l.starts_with("funwind "))).unwrap_or(false);
             variants.push((path.clone(), bytes.into(), Vec::new()));
@@ -881,6 +885,12 @@ fn fixture_cases(tier: Tier) -> Vec<Case> {
                 ops.extend(desc);
                 for q in chunk {
                     ops.push(format!("q {} {} {}", q.form.tag(), q.addr, q.claim));
+                }
+                // self-check: the case must survive the trip through the ops file (lines are trimmed there) with its
+                // checksum intact, otherwise both sides would answer `bad-op` and the case would silently test nothing
+                let trimmed: Vec<String> = ops.iter().map(|l| l.trim().to_string()).collect();
+                if trimmed != ops || trimmed.iter().find_map(|l| l.strip_prefix("fsum ")).and_then(|s| s.parse::<u64>().ok()) != Some(objpres::desc_hash(trimmed.iter())) {
+                    cases.push(Case { name: format!("selfcheck-{}", cases.len()), ops: vec![format!("kind desc-selfcheck-failed {path}")] });
                 }
                 let variant = if patch.is_empty() { "" } else { "-nofs" };
                 cases.push(Case { name: format!("fo-{}{variant}-{k}", path.replace(['/', ' '], "_")), ops });
